@@ -385,6 +385,23 @@ def build_with_history(spec, X, history):
     return det
 
 
+def rejects_other_width(make_detector, Xtrain, Xpred):
+    """True when a detector fitted on Xtrain refuses data with another number of columns with ValueError. The pinned tree
+    accepts such data (detections are relative to the fitted threshold_ / penalty_, which is what the checks then assert); a
+    stricter input validation would be a legitimate change, after which nothing is claimed about such a call."""
+    import numpy as np
+
+    if np.asarray(Xtrain).shape[1] == np.asarray(Xpred).shape[1]:
+        return False
+    try:
+        make_detector().fit(Xtrain).predict(Xpred)
+    except ValueError:
+        return True
+    except Exception:  # noqa: BLE001 - anything else is left to the check itself
+        return False
+    return False
+
+
 def related_predict(det, X, history):
     """Lets the fitted `det` predict on a new object with data related to X (see HISTORIES); failures of that earlier
     call with the documented not-positive-definite error are part of life."""
